@@ -1,0 +1,99 @@
+//! Verification seam, compiled only with `--cfg rs_tftpd_verif`.
+//!
+//! Provides a drop-in replacement for [`std::time::Instant`] that reads a
+//! process-wide simulated clock once a verification harness has switched it on,
+//! and is plain real time otherwise. Nothing in this module is reachable in a
+//! normal build.
+
+use std::ops::{Add, Sub};
+use std::sync::atomic::{AtomicBool, AtomicI64, AtomicU64, Ordering};
+use std::time::Duration;
+
+static SIM_ON: AtomicBool = AtomicBool::new(false);
+static SIM_NOW_NS: AtomicI64 = AtomicI64::new(0);
+static NOW_CALLS: AtomicU64 = AtomicU64::new(0);
+
+/// Switches the simulated clock on (process-wide) and sets it to `start_ns`.
+pub fn sim_enable(start_ns: i64) {
+    SIM_NOW_NS.store(start_ns, Ordering::SeqCst);
+    NOW_CALLS.store(0, Ordering::SeqCst);
+    SIM_ON.store(true, Ordering::SeqCst);
+}
+
+/// Switches the simulated clock off; `Instant::now()` is real time again.
+pub fn sim_disable() {
+    SIM_ON.store(false, Ordering::SeqCst);
+}
+
+/// Advances the simulated clock by `d`.
+pub fn sim_advance(d: Duration) {
+    SIM_NOW_NS.fetch_add(saturating_ns(d), Ordering::SeqCst);
+}
+
+/// Current simulated time in nanoseconds.
+pub fn sim_now_ns() -> i64 {
+    SIM_NOW_NS.load(Ordering::SeqCst)
+}
+
+/// Number of `Instant::now()` calls answered by the simulated clock since `sim_enable`.
+pub fn sim_now_calls() -> u64 {
+    NOW_CALLS.load(Ordering::SeqCst)
+}
+
+fn saturating_ns(d: Duration) -> i64 {
+    i64::try_from(d.as_nanos()).unwrap_or(i64::MAX / 4)
+}
+
+/// Replacement for [`std::time::Instant`] with the subset of its API that the crate uses.
+#[derive(Clone, Copy, Debug)]
+pub enum Instant {
+    /// A real point in time.
+    Real(std::time::Instant),
+    /// A simulated point in time (nanoseconds).
+    Sim(i64),
+}
+
+impl Instant {
+    /// See [`std::time::Instant::now`].
+    pub fn now() -> Instant {
+        if SIM_ON.load(Ordering::SeqCst) {
+            NOW_CALLS.fetch_add(1, Ordering::SeqCst);
+            Instant::Sim(SIM_NOW_NS.load(Ordering::SeqCst))
+        } else {
+            Instant::Real(std::time::Instant::now())
+        }
+    }
+
+    /// See [`std::time::Instant::elapsed`].
+    pub fn elapsed(&self) -> Duration {
+        match self {
+            Instant::Real(t) => t.elapsed(),
+            Instant::Sim(t) => {
+                let d = SIM_NOW_NS.load(Ordering::SeqCst).saturating_sub(*t);
+                Duration::from_nanos(d.max(0) as u64)
+            }
+        }
+    }
+}
+
+impl Sub<Duration> for Instant {
+    type Output = Instant;
+
+    fn sub(self, rhs: Duration) -> Instant {
+        match self {
+            Instant::Real(t) => Instant::Real(t - rhs),
+            Instant::Sim(t) => Instant::Sim(t.saturating_sub(saturating_ns(rhs))),
+        }
+    }
+}
+
+impl Add<Duration> for Instant {
+    type Output = Instant;
+
+    fn add(self, rhs: Duration) -> Instant {
+        match self {
+            Instant::Real(t) => Instant::Real(t + rhs),
+            Instant::Sim(t) => Instant::Sim(t.saturating_add(saturating_ns(rhs))),
+        }
+    }
+}
